@@ -25,7 +25,13 @@ struct Term {
 struct Poly {
     n: usize,
     terms: Vec<Term>,
+    /// optional linear denominator c0 + sum l_i x_i: the function is then the rational function
+    /// P / L (quotient rules of every type behind the drivers); `over` chooses c0 so that L = 2
+    /// at the evaluation point, which keeps every value and derivative a small dyadic rational
+    den: Option<(i64, Vec<i64>)>,
 }
+
+const LCO: [i64; 12] = [1, -1, 2, 1, -2, 1, 3, -1, 1, 2, -1, 1];
 
 impl Poly {
     /// all monomials of total degree <= deg in n variables, pairwise distinct non-zero
@@ -53,7 +59,14 @@ impl Poly {
             let c = if (k + r as i64) % 3 == 0 { -mag } else { mag };
             terms.push(Term { c, e: ex });
         }
-        Poly { n, terms }
+        Poly { n, terms, den: None }
+    }
+    /// the rational function P / L with L(x0) = 2
+    fn over(mut self, x0: &[i64]) -> Poly {
+        let l: Vec<i64> = LCO[..self.n].to_vec();
+        let c0 = 2 - l.iter().zip(x0.iter()).map(|(a, b)| a * b).sum::<i64>();
+        self.den = Some((c0, l));
+        self
     }
     fn eval<D: DualNum<f64>>(&self, x: &[D]) -> D {
         let mut s = D::from(0.0);
@@ -66,6 +79,13 @@ impl Poly {
             }
             s = s + p;
         }
+        if let Some((c0, l)) = &self.den {
+            let mut q = D::from(*c0 as f64);
+            for (i, li) in l.iter().enumerate() {
+                q = q + x[i].clone() * D::from(*li as f64);
+            }
+            s = s / q;
+        }
         s
     }
     fn diff(&self, v: usize) -> Poly {
@@ -77,17 +97,47 @@ impl Poly {
                 terms.push(Term { c: t.c * t.e[v] as i64, e });
             }
         }
-        Poly { n: self.n, terms }
+        Poly { n: self.n, terms, den: None }
     }
-    fn at(&self, x: &[i64]) -> i64 {
+    fn num_at(&self, x: &[i64]) -> i64 {
         self.terms.iter().map(|t| t.c * t.e.iter().enumerate().map(|(i, &d)| x[i].pow(d as u32)).product::<i64>()).sum()
     }
-    fn d(&self, vars: &[usize], x: &[i64]) -> f64 {
+    fn at(&self, x: &[i64]) -> f64 {
+        self.d(&[], x)
+    }
+    fn num_d(&self, vars: &[usize], x: &[i64]) -> i64 {
         let mut p = self.clone();
         for &v in vars {
             p = p.diff(v);
         }
-        p.at(x) as f64
+        p.num_at(x)
+    }
+    /// partial derivative with respect to the listed variables (repetitions allowed); for P / L by
+    /// the Leibniz rule over the list positions with d_U (1/L) = (-1)^|U| |U|! prod l_u / L^(|U|+1),
+    /// exact in f64 because L is a power of two at the point and all numerators are small integers
+    fn d(&self, vars: &[usize], x: &[i64]) -> f64 {
+        match &self.den {
+            None => self.num_d(vars, x) as f64,
+            Some((c0, l)) => {
+                let lv = (c0 + l.iter().zip(x.iter()).map(|(a, b)| a * b).sum::<i64>()) as f64;
+                let k = vars.len();
+                let mut total = 0.0f64;
+                for mask in 0..(1usize << k) {
+                    let t: Vec<usize> = (0..k).filter(|i| mask & (1 << i) != 0).map(|i| vars[i]).collect();
+                    let u: Vec<usize> = (0..k).filter(|i| mask & (1 << i) == 0).map(|i| vars[i]).collect();
+                    let m = u.len();
+                    let mut coef = if m % 2 == 0 { 1.0 } else { -1.0 };
+                    for j in 1..=m {
+                        coef *= j as f64;
+                    }
+                    for v in &u {
+                        coef *= l[*v] as f64;
+                    }
+                    total += self.num_d(&t, x) as f64 * coef / lv.powi(m as i32 + 1);
+                }
+                total
+            }
+        }
     }
 }
 
@@ -150,6 +200,7 @@ macro_rules! grad_static {
             let n = $n;
             let p = Poly::new(n, which, 3);
             let x = point(n, which);
+            let p = if which == 1 { p.over(&x) } else { p };
             let xv = SVector::<f64, $n>::from_fn(|i, _| x[i] as f64);
             let (f, g) = gradient(|v: SVector<DualSVec64<$n>, $n>| p.eval(v.as_slice()), xv);
             $ctx.check("gradient", &format!("static n={n}"), "value", f, p.at(&x) as f64, json!({"point": x}));
@@ -191,6 +242,7 @@ macro_rules! jac_static {
             let (m, n) = ($m, $n);
             let polys: Vec<Poly> = (0..m).map(|r| Poly::new(n, r + 1, 3)).collect();
             let x = point(n, (m + n) % 2);
+            let polys: Vec<Poly> = polys.into_iter().enumerate().map(|(r, p)| if r % 2 == 1 { p.over(&x) } else { p }).collect();
             let xv = SVector::<f64, $n>::from_fn(|i, _| x[i] as f64);
             let (f, j) = jacobian(|v: SVector<DualSVec64<$n>, $n>| SVector::<DualSVec64<$n>, $m>::from_fn(|r, _| polys[r].eval(v.as_slice())), xv);
             let shape = format!("static m={m} n={n}");
@@ -221,6 +273,7 @@ macro_rules! phess_static {
             let (m, n) = ($m, $n);
             let p = Poly::new(m + n, m * 7 + n, 3);
             let pt = point(m + n, (m + n) % 2);
+            let p = if (m + n) % 2 == 0 { p.over(&pt) } else { p };
             let xv = SVector::<f64, $m>::from_fn(|i, _| pt[i] as f64);
             let yv = SVector::<f64, $n>::from_fn(|i, _| pt[m + i] as f64);
             let fun = |x: SVector<HyperDualSVec64<$m, $n>, $m>, y: SVector<HyperDualSVec64<$m, $n>, $n>| {
@@ -261,6 +314,7 @@ fn dynamic(ctx: &mut Ctx) {
         for which in 0..2 {
             let p = Poly::new(n, which + 2, 3);
             let x = point(n, which);
+            let p = if which == 1 { p.over(&x) } else { p };
             let xv = DVector::<f64>::from_fn(n, |i, _| x[i] as f64);
             let shape = format!("dynamic n={n}");
             let (f, g) = gradient(|v: DVector<DualDVec64>| p.eval(v.as_slice()), xv.clone());
@@ -309,6 +363,7 @@ fn dynamic(ctx: &mut Ctx) {
         for m in 1..=6usize {
             let polys: Vec<Poly> = (0..m).map(|r| Poly::new(n, r + 3, 3)).collect();
             let x = point(n, (m + n) % 2);
+            let polys: Vec<Poly> = polys.into_iter().enumerate().map(|(r, p)| if r % 2 == 1 { p.over(&x) } else { p }).collect();
             let xv = DVector::<f64>::from_fn(n, |i, _| x[i] as f64);
             let shape = format!("dynamic m={m} n={n}");
             let (f, j) = jacobian(|v: DVector<DualDVec64>| DVector::<DualDVec64>::from_fn(m, |r, _| polys[r].eval(v.as_slice())), xv.clone());
@@ -343,6 +398,7 @@ fn dynamic(ctx: &mut Ctx) {
         for n in 0..=6usize {
             let p = Poly::new(m + n, m * 7 + n + 1, 3);
             let pt = point(m + n, (m + n) % 2);
+            let p = if (m * 3 + n) % 2 == 0 { p.over(&pt) } else { p };
             let xv = DVector::<f64>::from_fn(m, |i, _| pt[i] as f64);
             let yv = DVector::<f64>::from_fn(n, |i, _| pt[m + i] as f64);
             let shape = format!("dynamic m={m} n={n}");
@@ -388,6 +444,7 @@ fn scalars(ctx: &mut Ctx) {
         let p = Poly::new(1, which + 4, 5);
         for &x in &[2i64, -1, 3, 0] {
             let xs = [x];
+            let p = if which == 1 { p.clone().over(&xs) } else { p.clone() };
             let (f, d1) = first_derivative(|t| p.eval(&[t]), x as f64);
             ctx.check("first_derivative", "scalar", "value", f, p.at(&xs) as f64, json!({"x": x}));
             ctx.check("first_derivative", "scalar", "d1", d1, p.d(&[0], &xs), json!({"x": x}));
@@ -429,6 +486,7 @@ fn scalars(ctx: &mut Ctx) {
     for which in 0..2 {
         let p = Poly::new(2, which + 6, 4);
         let pt = point(2, which);
+        let p = if which == 1 { p.over(&pt) } else { p };
         let (f, fx, fy, fxy) = second_partial_derivative(|x, y| p.eval(&[x, y]), pt[0] as f64, pt[1] as f64);
         ctx.check("second_partial_derivative", "scalar", "value", f, p.at(&pt) as f64, json!({"point": pt}));
         ctx.check("second_partial_derivative", "scalar", "dx", fx, p.d(&[0], &pt), json!({"point": pt}));
@@ -443,6 +501,7 @@ fn scalars(ctx: &mut Ctx) {
         }
         let p = Poly::new(3, which + 8, 4);
         let pt = point(3, which);
+        let p = if which == 0 { p.over(&pt) } else { p };
         let r = third_partial_derivative(|x, y, z| p.eval(&[x, y, z]), pt[0] as f64, pt[1] as f64, pt[2] as f64);
         let names = ["value", "dx", "dy", "dz", "dxdy", "dxdz", "dydz", "dxdydz"];
         let vars: [&[usize]; 8] = [&[], &[0], &[1], &[2], &[0, 1], &[0, 2], &[1, 2], &[0, 1, 2]];
@@ -462,6 +521,7 @@ fn scalars(ctx: &mut Ctx) {
     for n in 1..=5usize {
         let p = Poly::new(n, n + 10, 3);
         let pt = point(n, n % 2);
+        let p = if n % 2 == 0 { p.over(&pt) } else { p };
         let xf: Vec<f64> = pt.iter().map(|v| *v as f64).collect();
         for i in 0..n {
             for j in 0..n {
@@ -493,6 +553,7 @@ fn scalars(ctx: &mut Ctx) {
         let n = 3;
         let p = Poly::new(n, 21, 3);
         let pt = point(n, 0);
+        let p = p.over(&pt);
         let dir = [1i64, -2, 3];
         let xv = SVector::<Dual64, 3>::from_fn(|i, _| Dual64::new(pt[i] as f64, dir[i] as f64));
         let (f, g) = gradient(|v: SVector<DualVec<Dual64, f64, nalgebra::Const<3>>, 3>| p.eval(v.as_slice()), xv);
@@ -503,6 +564,50 @@ fn scalars(ctx: &mut Ctx) {
             ctx.check("gradient", "nested T=Dual64 n=3", &format!("g[{i}].re"), g[i].re, p.d(&[i], &pt), json!({"point": pt}));
             let hd: f64 = (0..n).map(|j| p.d(&[i, j], &pt) * dir[j] as f64).sum();
             ctx.check("gradient", "nested T=Dual64 n=3", &format!("g[{i}].eps"), g[i].eps, hd, json!({"point": pt}));
+        }
+    }
+    // nested use of the scalar drivers: the input is a Dual64 with a non-unit direction, so every
+    // returned component carries the next derivative in its eps part (4th order for third_derivative)
+    for which in 0..2 {
+        let p0 = Poly::new(1, which + 30, 5);
+        for &x in &[2i64, -1, 3] {
+            let xs = [x];
+            let p = if which == 0 { p0.clone().over(&xs) } else { p0.clone() };
+            let dir = 3.0;
+            let xd = Dual64::new(x as f64, dir);
+            let c = json!({"x": x, "direction": dir, "rational": which == 0});
+            let dn = |k: usize| p.d(&vec![0usize; k], &xs);
+            let (f, d1) = first_derivative(|t: Dual<Dual64, f64>| p.eval(&[t]), xd);
+            for (name, got, k) in [("value", f, 0usize), ("d1", d1, 1)] {
+                ctx.check("first_derivative", "nested T=Dual64", &format!("{name}.re"), got.re, dn(k), c.clone());
+                ctx.check("first_derivative", "nested T=Dual64", &format!("{name}.eps"), got.eps, dir * dn(k + 1), c.clone());
+            }
+            let (f, d1, d2) = second_derivative(|t: Dual2<Dual64, f64>| p.eval(&[t]), xd);
+            for (name, got, k) in [("value", f, 0usize), ("d1", d1, 1), ("d2", d2, 2)] {
+                ctx.check("second_derivative", "nested T=Dual64", &format!("{name}.re"), got.re, dn(k), c.clone());
+                ctx.check("second_derivative", "nested T=Dual64", &format!("{name}.eps"), got.eps, dir * dn(k + 1), c.clone());
+            }
+            let (f, d1, d2, d3) = third_derivative(|t: Dual3<Dual64, f64>| p.eval(&[t]), xd);
+            for (name, got, k) in [("value", f, 0usize), ("d1", d1, 1), ("d2", d2, 2), ("d3", d3, 3)] {
+                ctx.check("third_derivative", "nested T=Dual64", &format!("{name}.re"), got.re, dn(k), c.clone());
+                ctx.check("third_derivative", "nested T=Dual64", &format!("{name}.eps"), got.eps, dir * dn(k + 1), c.clone());
+            }
+        }
+        // mixed partials with nested inputs: directions (2, -1) on (x, y)
+        let p = Poly::new(2, which + 32, 4);
+        let pt = point(2, which);
+        let p = if which == 0 { p.over(&pt) } else { p };
+        let (dx, dy) = (2.0, -1.0);
+        let r = second_partial_derivative(|x: HyperDual<Dual64, f64>, y: HyperDual<Dual64, f64>| p.eval(&[x, y]), Dual64::new(pt[0] as f64, dx), Dual64::new(pt[1] as f64, dy));
+        let c = json!({"point": pt, "directions": [dx, dy], "rational": which == 0});
+        let items: [(&str, Dual64, &[usize]); 4] = [("value", r.0, &[]), ("dx", r.1, &[0]), ("dy", r.2, &[1]), ("dxdy", r.3, &[0, 1])];
+        for (name, got, vars) in items {
+            let mut vx = vars.to_vec();
+            vx.push(0);
+            let mut vy = vars.to_vec();
+            vy.push(1);
+            ctx.check("second_partial_derivative", "nested T=Dual64", &format!("{name}.re"), got.re, p.d(vars, &pt), c.clone());
+            ctx.check("second_partial_derivative", "nested T=Dual64", &format!("{name}.eps"), got.eps, dx * p.d(&vx, &pt) + dy * p.d(&vy, &pt), c.clone());
         }
     }
     // non-polynomial integrands against the Taylor coefficients of the reference
@@ -586,8 +691,8 @@ fn main() {
         mode: cli.mode,
         seed: cli.seed,
         start,
-        rule: "the twenty public drivers x input lengths n = 0..6 and output lengths m = 1..6 (static where the type system allows: gradient/hessian n = 1..6, jacobian all (m,n) in 1..6 x 1..6, partial_hessian (m,n) <= 4 and (6,1),(6,6),(1,6); dynamic for all lengths incl. 0) x two integer points x asymmetric integer polynomials containing every monomial of degree <= 3 with pairwise distinct coefficients (so every partial up to order 3 is non-zero and no two are equal); all n^3 index triples of third_partial_derivative_vec for n <= 5; try_ variants with unit-struct, String and integer errors; constant / partially constant functions (absent parts); nested use T = Dual64; non-polynomial integrands against reference Taylor coefficients. Non-trivial = a derivative entry whose exact value is neither 0 nor 1.".into(),
-        assumptions: vec!["expected values by symbolic differentiation of the coefficient tables in integer arithmetic; all values are small integers, so equality is exact".into()],
+        rule: "the twenty public drivers x input lengths n = 0..6 and output lengths m = 1..6 (static where the type system allows: gradient/hessian n = 1..6, jacobian all (m,n) in 1..6 x 1..6, partial_hessian (m,n) <= 4 and (6,1),(6,6),(1,6); dynamic for all lengths incl. 0) x two integer points x asymmetric integer polynomials containing every monomial of degree <= 3 with pairwise distinct coefficients (so every partial up to order 3 is non-zero and no two are equal) and, for every second function, that polynomial divided by a linear form equal to 2 at the point (quotient rules; all values stay small dyadic rationals); all n^3 index triples of third_partial_derivative_vec for n <= 5; try_ variants with unit-struct, String and integer errors; constant / partially constant functions (absent parts); nested use T = Dual64 (gradient, first/second/third_derivative, second_partial_derivative: the eps parts carry one more derivative order); non-polynomial integrands against reference Taylor coefficients. Non-trivial = a derivative entry whose exact value is neither 0 nor 1.".into(),
+        assumptions: vec!["expected values by symbolic differentiation of the coefficient tables in integer arithmetic (Leibniz rule for the quotient by the linear form); all values are small integers or dyadic rationals, so equality is exact".into()],
         extra: json!({"oracle": "exact integer partial derivatives; Err identity; Ok results bit-equal to the infallible variants"}),
         exhaustive: true,
         caps: vec![],
